@@ -149,6 +149,20 @@ def binop(interp, op, a, b):
             return ListV(a.items + b.items)
         if isinstance(a, ListV) and _seq_items(b) is not None:
             return ListV(a.items + _seq_items(b))
+    if isinstance(a, SetV) and isinstance(b, SetV) and sym in ('-', '|',
+                                                               '&', '^'):
+        if sym == '-':
+            return SetV([x for x in a.items
+                         if not any(same(x, y) for y in b.items)])
+        if sym == '|':
+            return SetV(a.items + b.items)
+        if sym == '&':
+            return SetV([x for x in a.items
+                         if any(same(x, y) for y in b.items)])
+        return SetV([x for x in a.items
+                     if not any(same(x, y) for y in b.items)] +
+                    [y for y in b.items
+                     if not any(same(x, y) for x in a.items)])
     if sym == '*' and isinstance(a, ListV) and isinstance(b, K) and \
             isinstance(b.v, int):
         if b.v > 64:
@@ -431,6 +445,10 @@ def bytes_slice(interp, base, lo, hi):
             nhi = bhi
         if isinstance(nlo, K) and nlo.v > bhi.v:
             nlo = bhi
+    if not isinstance(bhi, K) and nhi != bhi and not (
+            isinstance(nhi, K) and nhi.v is None):
+        nhi = T('call', 'min', *sorted([nhi, bhi], key=show))
+        interp.types[nhi] = 'int'
     if isinstance(nhi, K) and nhi.v is not None and isinstance(nlo, K) and \
             nhi.v < nlo.v:
         nhi = nlo
@@ -572,8 +590,17 @@ def struct_unpack(interp, fmt, data):
     src, lo, hi = data.args
     n = bytes_len(interp, data)
     if n is None:
-        interp.inexact('struct.unpack of a slice of unknown length: %s'
-                       % show(data))
+        if isinstance(hi, K) and hi.v is None:
+            interp.inexact('struct.unpack of a slice of unknown length: %s'
+                           % show(data))
+        else:
+            ln = norm_int(T('binop', '-', hi, lo))
+            ok = _compare(interp, '==', ln, K(size))
+            if not interp.truth(ok):
+                raise AbsRaise(T('exc', 'struct.error',
+                                 'unpack requires a buffer of %d bytes'
+                                 % size))
+            hi = norm_int(T('binop', '+', lo, K(size)))
     elif n != size:
         raise AbsRaise(T('exc', 'struct.error',
                          'unpack requires a buffer of %d bytes, got %d' %
@@ -874,8 +901,11 @@ def call_method(interp, base, name, args, kwargs):
             src, lo, hi = base.args
             n = len(args[0].v)
             end = norm_int(T('binop', '+', lo, K(n)))
-            if bytes_len(interp, base) is None:
-                interp.effect('need', src, end)
+            total = bytes_len(interp, base)
+            if total is not None and total < n:
+                return K(False)
+            if total is None:
+                return method_term(interp, base, name, args, kwargs)
             return T('cmp', '==', T('bytes', src, lo, end), args[0])
     return method_term(interp, base, name, args, kwargs)
 
@@ -1041,6 +1071,12 @@ def b_len(interp, args, kwargs):
         n = bytes_len(interp, v)
         if n is not None:
             return K(n)
+        src, lo, hi = v.args
+        if not (isinstance(hi, K) and hi.v is None):
+            t = norm_int(T('binop', '-', hi, lo))
+            if isinstance(t, T):
+                interp.types[t] = 'int'
+            return t
     if isinstance(v, T) and v in interp.lens:
         return K(interp.lens[v])
     if isinstance(v, Obj):
